@@ -108,10 +108,16 @@ def not_started_predicates(an: Analysis):
     """
     result = []
     for name, fn in sorted(_class_methods(an, TASK).items()):
+        # locals that hold the runner (`runner = self.__runner__`)
+        aliases = {t.id for n in ast.walk(fn.node) if isinstance(n, ast.Assign)
+                   and isinstance(n.value, ast.Attribute) and n.value.attr == '__runner__'
+                   for t in n.targets if isinstance(t, ast.Name)}
         for node in ast.walk(fn.node):
             # wherever the runner's state is compared: if-tests, conditional expressions
             # or a local that holds the outcome
-            if isinstance(node, ast.Compare) and '__runner__' in ast.unparse(node):
+            if isinstance(node, ast.Compare) and ('__runner__' in ast.unparse(node) or any(
+                    isinstance(sub, ast.Name) and sub.id in aliases
+                    for sub in ast.walk(node))):
                 result.append((fn, node, classify_started_test(node)))
     return result
 
